@@ -111,11 +111,54 @@ def estimates_with_small_magnitude_matrices(c, param):
                 note=f"estimate {est} vs closed form {ref}")
 
 
+def estimates_across_sparse_switch(c, param, who):
+    """full (correlated, dense) covariance / precision matrices of noise or prior on the SPARSE side of the storage switch (config.MIN_DIM_SPARSE, the
+    route dimensions above 75 take: eigen-decomposition, sparse factors): ML, MAP through the optimiser and the direct MAP after compute_cov() are the
+    maximisers of the DOCUMENTED posterior (built here from the user's matrices, not from the object's own log-density); bounded stand-in (native)"""
+    import io, contextlib, warnings
+    from cuqi import config
+    m, n = 4, 3
+    A = np.array([[c.real(f'A{i}{j}') for j in range(n)] for i in range(m)]) + np.vstack([np.eye(n), np.ones((1, n))])
+    y = np.array([c.real(f'y{i}') for i in range(m)])
+    def spd(k, tag):
+        G = np.tril(np.array([[c.real(f'{tag}{i}{j}') for j in range(k)] for i in range(k)]))
+        return G @ G.T + 0.5 * np.eye(k)
+    Mn, Mp = spd(m, 'N'), spd(n, 'P')
+    mu = np.array([c.real(f'mu{i}') for i in range(n)])
+    old = config.MIN_DIM_SPARSE; config.MIN_DIM_SPARSE = 0
+    try:
+        nkw = {param: Mn} if who in ('noise', 'both') else {'cov': np.diag(np.diag(Mn))}
+        pkw = {param: Mp} if who in ('prior', 'both') else {'cov': np.diag(np.diag(Mp))}
+        Pn = (np.linalg.inv(Mn) if param == 'cov' else Mn) if who in ('noise', 'both') else np.diag(1 / np.diag(Mn))       # documented precisions
+        Pp = (np.linalg.inv(Mp) if param == 'cov' else Mp) if who in ('prior', 'both') else np.diag(1 / np.diag(Mp))
+        x = Gaussian(mu, name='x', **pkw); yd = Gaussian(LinearModel(A)(x), name='y', **nkw)
+        BP = BayesianProblem(yd, x).set_data(y=y)
+        with contextlib.redirect_stdout(io.StringIO()), warnings.catch_warnings():
+            warnings.simplefilter('ignore')
+            ml = np.asarray(BP.ML(disp=False, x0=np.zeros(n)), dtype=float)
+            BP.likelihood.distribution.compute_cov() if param != 'cov' else None
+            BP.prior.compute_cov() if param != 'cov' else None
+            mp = BP.MAP(disp=False)
+    finally:
+        config.MIN_DIM_SPARSE = old
+    ref_ml = np.linalg.solve(A.T @ Pn @ A, A.T @ Pn @ y)
+    ref_map = np.linalg.solve(A.T @ Pn @ A + Pp, A.T @ Pn @ y + Pp @ mu)
+    c.holds('ML:estimate_is_the_maximiser_of_the_documented_likelihood', bool(np.linalg.norm(ml - ref_ml) <= 1e-3 * (1 + np.linalg.norm(ref_ml))), note=f"{ml} vs {ref_ml}")
+    c.holds('MAP:estimate_is_the_closed_form_posterior_mean_of_the_documented_problem', bool(np.linalg.norm(np.asarray(mp, dtype=float) - ref_map) <= 1e-3 * (1 + np.linalg.norm(ref_map))),
+            note=f"{np.asarray(mp)} vs {ref_map} ({mp.info.get('solver')})")
+
+
 def map_closed_form(c, m, n, noise_form, prior_form, noise_param='cov', prior_param='cov', geom='default'):
     BP, n = _problem(c, m, n, noise_form, prior_form, noise_param, prior_param, geom)
     post = BP.posterior
     S0 = (frame.snapshot(BP.likelihood.distribution, ('_matrix',)), frame.snapshot(BP.prior, ('_matrix',)))
-    xmap = BP.MAP(disp=False)              # a refusal (exception) is an admissible outcome
+    try: xmap = BP.MAP(disp=False)         # a refusal is an admissible outcome - but only the documented one, and it must leave everything as it was
+    except NotImplementedError as e:
+        S1 = (frame.snapshot(BP.likelihood.distribution, ('_matrix',)), frame.snapshot(BP.prior, ('_matrix',)))
+        c.holds('refusal_names_the_documented_way_out', 'compute_cov' in str(e), note=str(e)[:120])
+        c.holds('refused_call_leaves_noise_model_and_prior_unchanged', frame.same(S0, S1), note='; '.join(frame.diff(S0, S1)))
+        c.holds('refusal_only_for_forms_without_a_stored_covariance', noise_param != 'cov' or prior_param != 'cov', note=f'{noise_param}/{prior_param}')
+        return
     S1 = (frame.snapshot(BP.likelihood.distribution, ('_matrix',)), frame.snapshot(BP.prior, ('_matrix',)))
     c.holds('computing_the_estimate_leaves_noise_model_and_prior_unchanged', frame.same(S0, S1), note='; '.join(frame.diff(S0, S1)))
     c.eq('a_second_call_returns_the_same_estimate', np.asarray(BP.MAP(disp=False)), np.asarray(xmap))
@@ -359,6 +402,11 @@ def jobs(tier):
     for param in ('cov', 'prec'):
         J.append(Job(f'ML_and_MAP:full_noise_matrix_of_small_magnitude:{param}', lambda c, p_=param: estimates_with_small_magnitude_matrices(c, p_), 'B',
                      [f'{PR}:BayesianProblem.ML', f'{PR}:BayesianProblem.MAP', 'cuqi.distribution._gaussian:get_sqrtprec_from_cov', 'cuqi.distribution._gaussian:get_sqrtprec_from_prec'], nnum=3))
+    for param in ('cov', 'prec'):
+        for who in (('noise', 'prior') if q else ('noise', 'prior', 'both')):
+            J.append(Job(f'ML_and_MAP:full_matrices_on_the_sparse_side_of_the_storage_switch:{param}:{who}', lambda c, p_=param, w=who: estimates_across_sparse_switch(c, p_, w), 'B',
+                         [f'{PR}:BayesianProblem.ML', f'{PR}:BayesianProblem.MAP', 'cuqi.distribution._gaussian:get_sqrtprec_from_cov', 'cuqi.distribution._gaussian:get_sqrtprec_from_prec',
+                          'cuqi.distribution._gaussian:Gaussian.compute_cov'], nnum=3 if q else 10))
     for geom, proj in (('KL', 'mean'), ('Step', 'mean'), ('Step', 'max')):
         J.append(Job(f'ML_and_MAP:optimisation_route:geometry={geom}:{proj}', lambda c, g=geom, pj=proj: ml_transforming_geometry(c, g, pj), 'B',
                      [f'{PR}:BayesianProblem._solve_max_point', f'{PR}:BayesianProblem.ML', 'cuqi.model._model:Model._check_gradient_can_be_computed'], nnum=3))
